@@ -253,5 +253,26 @@ func init() {
 				}
 			}
 		}
+		// (3) every rest state × every outside stimulus (malformed and misplaced messages included), and random
+		// disturbed runs: whatever happened, the stored record must still load
+		scs := sweepScenarios(roles)
+		for i := 0; i < n/10; i++ {
+			role := roles[r.intn(len(roles))]
+			scs = append(scs, scn{role: role, steps: genScenario(r, role, false)})
+		}
+		runMany(defaultCfg(), scs, func(x scnResult) {
+			if x.ctx == nil || x.ctx.id == "" {
+				return
+			}
+			res.Evaluations++
+			res.Histogram["disturbed swap record"]++
+			_, err := x.w.store.inner.GetData(x.ctx.id)
+			if err != nil && !strings.Contains(err.Error(), "does not exist") && !strings.Contains(err.Error(), "not found") && !strings.Contains(err.Error(), "not in store") {
+				res.addFinding("C14/record-unreadable", "the record of a real swap cannot be read back: "+err.Error(), map[string]string{"role": x.sc.role, "scenario": scenarioKey(x.sc.steps)})
+			}
+			if _, err := x.w.store.inner.ListAll(); err != nil {
+				res.addFinding("C14/store-unreadable", "the swap store cannot be listed any more (a restart would fail): "+err.Error(), map[string]string{"role": x.sc.role, "scenario": scenarioKey(x.sc.steps)})
+			}
+		})
 	}
 }
